@@ -250,6 +250,25 @@ def main():
         if os.path.exists(corpus):
             cases.extend(json.loads(l) for l in open(corpus) if l.strip())
         cases.extend(mod.generate(args.tier, rng))
+        # the package source differs from the baseline the model was last validated against (harness/srcbase.py): not a
+        # verdict, but a reason to look harder - the random part of the generation is repeated under further seeds
+        import srcbase
+        try:
+            changed_src = srcbase.changed_files(args.repo)
+        except Exception as e:  # noqa: BLE001
+            changed_src = ["<baseline unreadable: %s>" % e]
+        if changed_src:
+            seen = {case_key(c) for c in cases}
+            n0 = len(cases)
+            for extra in range(1, (3 if args.tier == "quick" else 2)):
+                rng_x = random.Random("%s/%s/%d/escalate%d" % (pid, args.tier, seed, extra))
+                for c in mod.generate(args.tier, rng_x):
+                    k = case_key(c)
+                    if k not in seen:
+                        seen.add(k)
+                        cases.append(c)
+            notes.append("source differs from the validated baseline in %s: search widened from %d to %d cases"
+                         % (", ".join(changed_src[:6]), n0, len(cases)))
     if hasattr(mod, "run"):
         # properties with their own pipeline (relational ties etc.)
         return mod.run(args, seed, t0, cases, known, problems, notes, discharged, axioms_used)
